@@ -770,6 +770,15 @@ def abstract_seq_specs(I):
 class FinderBase(VC):
     prop = PROP
 
+    def discharge(self, name, pc, cond, timeout, seed, pre, out):
+        """cvc5 (which honours its limits) on the formulas as generated first; z3 only for what cvc5 leaves open"""
+        if cond is True or cond is False:
+            return super().discharge(name, pc, cond, timeout, seed, pre, out)
+        r = X.check_sat_fresh(list(pc) + [z3.Not(cond)], min(timeout, 8000), seed, cvc5_only=True)
+        if r.status == "unsat":
+            return Res(name, "discharged", r.backend, r.seconds, "", self.kind)
+        return super().discharge(name, pc, cond, timeout, seed, pre, out)
+
     def mk_finder(self, st):
         self.tokens = A.alist(st, "tokens", TOK_KIND)
         h = st.get(self.tokens)
@@ -1088,7 +1097,7 @@ _finder_bounded = FnTask(PROP, "C39.comment_finder.bounded", bounded_finder, kin
 _finder_bounded.bound_text = ("token lists of length <= 3 (thorough 4) over 5 token values x nondecreasing lines 1..3, comment tags ['NOTE:'] or [], "
                               "nondecreasing query sequences of length <= 2 over lines 0..4")
 
-TASKS = (BODY_TASKS + [LoopInit(s) for s in (None, "root", "variable", "block", "bogus")] + [LoopEnd(), EnvLex(), FindComments(), FindBackwards(),
+TASKS = (BODY_TASKS + [LoopInit(s) for s in (None, "root", "variable", "block", "bogus")] + [LoopEnd(), EnvLex(), X.HardTask(FindComments()), X.HardTask(FindBackwards()),
          FnTask(PROP, "C39.tokeniter.frame", loop_frame, kind="table"), FnTask(PROP, "C39.states.closed", states_closed, kind="table"),
          _finder_bounded]
          + bounded_tasks())
